@@ -277,6 +277,9 @@ def binary_and_formulas(ctx, rule="R19.3"):
 
 
 def run(ctx):
+    from ..small import none_default_rule
+
+    none_default_rule(ctx, "R19.4", ["transform/"], 20)
     discrete_partition(ctx)
     wrapper_siblings(ctx)
     binary_and_formulas(ctx)
